@@ -139,7 +139,9 @@ def _find(mod, name):
 
 
 def _coverage_signature(tiled, A, b, bounds, d, size, got):
-    """Narrow signatures for the two reproduced defects; anything else is the generic one."""
+    """Narrow signatures for the reproduced defects; anything else is the generic one."""
+    if got < size and all(A[d][j] == 0 for j in range(len(bounds))):
+        return "coverage:dim-not-accessed-by-any-schedule-dim"
     for j in range(len(bounds)):
         if A[d][j] != 0 and any(A[e][j] != 0 for e in range(d)):
             return "coverage:dim-shares-iteration-dim-with-earlier-operand-dim"
@@ -287,7 +289,7 @@ def check(recipe, want_explicit=False):
     tags = list(r.get("tags", []))
     cls = [f"form:{r['form']}", f"tiled:{tiled}", f"kernel:{r['kernel']}", f"acc:{D.acc_of(r)}"]
     cls += sorted({f"width:{D.WIDTH[o['elty']]}" for o in r["operands"]})
-    cls += [t for t in tags if t.split(":")[0] in ("fam", "odd", "conv", "order", "tsl-operands", "sweep", "operand", "bias")
+    cls += [t for t in tags if t.split(":")[0] in ("fam", "odd", "conv", "order", "tsl-operands", "sweep", "operand", "bias", "flavour")
             or t.startswith("has:")]
     cls += [f"pad:{reg}" for reg in fired] or ["pad:none"]
     cls.append(f"casts:{'all' if n_cast == len(r['operands']) else 'none' if n_cast == 0 else 'some'}")
